@@ -410,6 +410,129 @@ theorem set_num_frames_idempotent_in_frames (wh : Wh) (a b : BitVec 32) :
     congr 1
     rw [BitVec.add_sub_cancel]
 
+/-! ### decode then encode -/
+
+/-- the `L` header bytes at `b` as re-encoding writes them: identical, except that a format-chunk extension the
+    decoder skipped (`fmt_chunk_size ≥ 18`, `cb_size ≠ 22`: the bytes `[38, 38 + fmt_chunk_size − 18)`) is zeros.
+    `fmt` is the value of the size field, `tl` the length of the part after the format chunk (8, or 20 with a fact
+    chunk). -/
+def normalised (m : Mem) (b : Nat) (fmt : BitVec 32) (tl : Nat) : List UInt8 :=
+  readBytes m b 36 ++ extNorm m b 36 fmt ++ readBytes m (b + (36 + (extNorm m b 36 fmt).length)) tl
+
+/-- when nothing is skipped (PCM, float + fact, extensible with the 22-byte extension) `normalised` is just the
+    input bytes -/
+theorem normalised_plain (m : Mem) (b : Nat) (fmt : BitVec 32) (tl : Nat)
+    (h : ¬ 18#32 ≤ fmt ∨ dec16 (m (b + 36)) (m (b + 36 + 1)) = 22#16) :
+    normalised m b fmt tl = readBytes m b (36 + (extNorm m b 36 fmt).length + tl) := by
+  have e : extNorm m b 36 fmt = readBytes m (b + 36) (extNorm m b 36 fmt).length := by
+    unfold extNorm
+    rcases h with h | h
+    · simp [h, readBytes]
+    · by_cases hf : 18#32 ≤ fmt
+      · simp only [hf, h, if_true, readBytes_length]
+      · simp [hf, readBytes]
+  unfold normalised
+  rw [readBytes_append, readBytes_append, ← e]
+
+/-- with a skipped extension of `n = fmt − 18` bytes: the first 38 bytes, `n` zeros, the rest -/
+theorem normalised_skip (m : Mem) (b : Nat) (fmt : BitVec 32) (tl : Nat)
+    (h1 : 18#32 ≤ fmt) (h2 : dec16 (m (b + 36)) (m (b + 36 + 1)) ≠ 22#16) :
+    normalised m b fmt tl =
+      readBytes m b 38 ++ List.replicate (fmt - 18#32).toNat 0 ++ readBytes m (b + (38 + (fmt - 18#32).toNat)) tl := by
+  unfold normalised extNorm
+  simp only [h1, h2, if_true, if_false, List.length_append, readBytes_length, List.length_replicate]
+  rw [show (38 : Nat) = 36 + 2 from rfl, readBytes_append]
+  simp
+  congr 1
+  omega
+
+/-- **what re-encoding writes**: if `decode` accepts (result `L` with `0 ≤ L ≤ sz`), the encoding of the decoded
+    structure is exactly the `L` input bytes, normalised, and it is `L` bytes long -/
+theorem encBytes_decoded (m : Mem) (b sz : Nat) (hacc : 0 ≤ (decode m b sz).2 ∧ (decode m b sz).2 ≤ sz) :
+    encBytes (decode m b sz).1 =
+      normalised m b (decode m b sz).1.fmtChunkSize (tailLen m (decExt m (decHead m b sz))) ∧
+    ((encBytes (decode m b sz).1).length : Int) = (decode m b sz).2 := by
+  -- accepted: the result is the final structure, the returned length is the final cursor, which is ≤ sz
+  have hE := endCur_eq m b sz
+  obtain ⟨hret, hwh, hle⟩ : (decode m b sz).2 = endCur m b sz ∧
+      (decode m b sz).1 = (decTail m (decExt m (decHead m b sz))).1 ∧ endCur m b sz ≤ sz := by
+    rcases Librfn.C14.decode_ret m b sz with h | ⟨h, h'⟩
+    · omega
+    · exact ⟨h, h', by omega⟩
+  -- the three stages with their packers written as triples
+  have hd : decHead m b sz = ((decHead m b sz).1, ⟨b, sz, 36⟩) := rfl
+  have hx : decExt m ((decHead m b sz).1, ⟨b, sz, 36⟩) =
+      ((decExt m ((decHead m b sz).1, ⟨b, sz, 36⟩)).1, ⟨b, sz, 36 + extLen m ((decHead m b sz).1, ⟨b, sz, 36⟩)⟩) := by
+    have := decExt_pk m ((decHead m b sz).1, ⟨b, sz, 36⟩)
+    rw [Prod.ext_iff]; exact ⟨rfl, this⟩
+  rw [hd] at hE
+  rw [hx] at hE
+  have hH := head_bytes m b sz (by omega)
+  obtain ⟨hX, hXl⟩ := ext_bytes m (decHead m b sz).1 b sz 36 (by omega)
+  -- before the last stage the fact id is still clear
+  have hz : (decExt m ((decHead m b sz).1, ⟨b, sz, 36⟩)).1.factChunkId ≠ fact := by
+    have : (decExt m ((decHead m b sz).1, ⟨b, sz, 36⟩)).1.factChunkId = zero4 := by
+      unfold decExt
+      by_cases h : 18#32 ≤ (decHead m b sz).1.fmtChunkSize
+      · by_cases h2 : (unpackU16le m (⟨b, sz, 36⟩ : Pk)).1 = 22#16 <;> simp [h, h2] <;> rfl
+      · simp [h]; rfl
+    rw [this]; decide
+  have hT := tail_bytes m (decExt m ((decHead m b sz).1, ⟨b, sz, 36⟩)).1 b sz
+    (36 + extLen m ((decHead m b sz).1, ⟨b, sz, 36⟩)) hz (by omega)
+  have hfmt : (decode m b sz).1.fmtChunkSize = (decHead m b sz).1.fmtChunkSize := by
+    rw [hwh]
+    have a1 : ∀ s, (decTail m s).1.fmtChunkSize = s.1.fmtChunkSize := by
+      intro s; unfold decTail
+      by_cases h : (unpackBytes m s.2 4).1 = fact <;> simp [h]
+    rw [a1, decExt_fmt]
+  rw [hfmt, hwh, hret, hE]
+  have e1 : headOps (decTail m (decExt m (decHead m b sz))).1 = headOps (decHead m b sz).1 := by
+    rw [decTail_headOps, decExt_headOps]
+  have e2 : extOps (decTail m (decExt m (decHead m b sz))).1 = extOps (decExt m (decHead m b sz)).1 := decTail_extOps m _
+  have e3 : bytesOf (tailOps (decTail m (decExt m (decHead m b sz))).1) =
+      readBytes m (b + (36 + extLen m ((decHead m b sz).1, ⟨b, sz, 36⟩)))
+        (tailLen m ((decExt m ((decHead m b sz).1, ⟨b, sz, 36⟩)).1, ⟨b, sz, 36 + extLen m ((decHead m b sz).1, ⟨b, sz, 36⟩)⟩)) := by
+    have : decExt m (decHead m b sz) = ((decExt m ((decHead m b sz).1, ⟨b, sz, 36⟩)).1,
+        ⟨b, sz, 36 + extLen m ((decHead m b sz).1, ⟨b, sz, 36⟩)⟩) := by rw [hd]; exact hx
+    rw [this]; exact hT
+  have e4 : tailLen m (decExt m (decHead m b sz)) =
+      tailLen m ((decExt m ((decHead m b sz).1, ⟨b, sz, 36⟩)).1, ⟨b, sz, 36 + extLen m ((decHead m b sz).1, ⟨b, sz, 36⟩)⟩) := by
+    have : decExt m (decHead m b sz) = ((decExt m ((decHead m b sz).1, ⟨b, sz, 36⟩)).1,
+        ⟨b, sz, 36 + extLen m ((decHead m b sz).1, ⟨b, sz, 36⟩)⟩) := by rw [hd]; exact hx
+    rw [this]
+  have e5 : bytesOf (extOps (decExt m (decHead m b sz)).1) = extNorm m b 36 (decHead m b sz).1.fmtChunkSize := by
+    rw [hd]; exact hX
+  rw [encBytes_split, e1, e2, e3, hH, e5]
+  refine ⟨?_, ?_⟩
+  · unfold normalised
+    rw [hXl, e4]
+  · simp only [List.length_append, readBytes_length, hXl]
+
+/-- **decode_encode_id**: for every memory, buffer position and declared length on which `decode` succeeds with
+    length `L ≤ sz` — PCM, IEEE float with fact chunk, extensible with or without the 22-byte extension are all
+    covered by this one statement — encoding the decoded structure into any buffer of at least `L` bytes returns the
+    same `L` and writes exactly the `L` input bytes, a skipped extension normalised to zeros; nothing outside the
+    output buffer is written. -/
+theorem decode_encode_id (m : Mem) (b sz : Nat) (hacc : 0 ≤ (decode m b sz).2 ∧ (decode m b sz).2 ≤ sz)
+    (m2 : Mem) (b2 sz2 : Nat) (hfit : (decode m b sz).2 ≤ sz2) (hsz2 : sz2 < 2147483648) :
+    ((encode (decode m b sz).1 m2 b2 sz2).2 = (decode m b sz).2) ∧
+    readBytes (encode (decode m b sz).1 m2 b2 sz2).1 b2 (encBytes (decode m b sz).1).length =
+      normalised m b (decode m b sz).1.fmtChunkSize (tailLen m (decExt m (decHead m b sz))) ∧
+    ((encBytes (decode m b sz).1).length : Int) = (decode m b sz).2 ∧
+    (∀ i, i < b2 ∨ b2 + sz2 ≤ i → (encode (decode m b sz).1 m2 b2 sz2).1 i = m2 i) := by
+  obtain ⟨e1, e2⟩ := encBytes_decoded m b sz hacc
+  obtain ⟨s1, s2, s3⟩ := encode_spec (decode m b sz).1 m2 b2 sz2 (by omega) hsz2
+  refine ⟨by rw [s2, e2], by rw [s1, e1], e2, s3⟩
+
+/-- non-vacuity: an extensible header with a 3-byte unknown extension (cb_size 3) is accepted with length 49, and
+    re-encoding writes it back with the three extension bytes zeroed -/
+example :
+    let bs : List UInt8 := [0x52,0x49,0x46,0x46, 0xff,0,0,0, 0x57,0x41,0x56,0x45, 0x66,0x6d,0x74,0x20, 21,0,0,0, 0xfe,0xff, 2,0,
+      0x44,0xac,0,0, 0x10,0xb1,0x02,0, 4,0, 16,0, 3,0, 0xaa,0xbb,0xcc, 0x64,0x61,0x74,0x61, 0x90,0x01,0,0]
+    (decode (memOfList 5 bs) 5 49).2 = 49 ∧
+    readBytes (encode (decode (memOfList 5 bs) 5 49).1 (fun _ => 0xee) 9 49).1 9 49 =
+      bs.take 38 ++ [0, 0, 0] ++ bs.drop 41 := by decide
+
 /-! ### the defects these statements excluded, re-derived on explicitly named *old* variants (kernel `decide`) -/
 
 /-- D10 (fixed by e9578e3): with the old `set_num_frames`, which wrote `sample_length` without a fact chunk, the
